@@ -194,6 +194,9 @@ pub enum OpK {
     RecvAll,
     TryRecvAll,
     StreamAll,
+    /// drop the handle from inside the task of another handle (`dst`): a
+    /// relay task that owns both ends
+    DropInTask,
     TryIter,
     /// try_iter() under E1: the closing None is logged as Empty (it says
     /// "nothing right now", not "end of stream")
@@ -420,6 +423,7 @@ impl Ctx {
             PollComplete => self.poll_complete(th, o),
             CloneH => self.clone_h(th, o),
             DropH => self.drop_h(th, o),
+            DropInTask => self.drop_in_task(th, o),
             Unsub => self.unsub(th, o),
             TryRecv | Recv | TryRecvView | RecvView | PollS => self.recv_like(th, o, o.k).1,
             StreamNext => loop {
@@ -765,6 +769,32 @@ impl Ctx {
             .unwrap_or_else(|| bad(format!("drop of empty slot {}", o.h)));
         let start = rt::op_begin();
         let r = guarded(move || drop(h));
+        let (res, ok) = match r {
+            Call::Done(()) => (Res::Unit, true),
+            Call::Panicked(m) => (Res::Panic(m), false),
+        };
+        self.log(th, o, OpK::DropH, 0, start, res);
+        ok
+    }
+
+    fn drop_in_task(&self, th: u8, o: &Op) -> bool {
+        use futures::Future;
+        let h = self.slots[o.h as usize]
+            .lock()
+            .unwrap()
+            .take()
+            .unwrap_or_else(|| bad(format!("drop of empty slot {}", o.h)));
+        // the task whose context the drop runs in: the sink task of slot `dst`
+        let id = rt::task_id_for(true, o.dst);
+        let start = rt::op_begin();
+        let r = guarded(move || {
+            let mut cell = Some(h);
+            let mut fut = futures::executor::spawn(futures::future::lazy(move || {
+                drop(cell.take());
+                Ok::<(), ()>(())
+            }));
+            let _ = fut.poll_future_notify(&nref(), id);
+        });
         let (res, ok) = match r {
             Call::Done(()) => (Res::Unit, true),
             Call::Panicked(m) => (Res::Panic(m), false),
